@@ -49,6 +49,38 @@ static void client(void* arg)
     fut[0]->start(&work, id2);
     sched_event("\"op\":\"started\",\"f\":%d,\"c\":%d,\"after\":%d", id2, c, id);
   }
+  if(mode == 3 && c == 1)
+  {
+    // after the concurrent phase and an idle period (the pool may retire workers), a series of sequential calls:
+    // every one of them must still find a worker
+    for(int i = 0; i < nfuts; ++i)
+    {
+      int id = c * 8 + i;
+      sched_event("\"op\":\"join\",\"f\":%d", id);
+      int r = *fut[i];
+      sched_event("\"op\":\"joinret\",\"f\":%d,\"r\":%d,\"fin\":%s,\"ab\":%s,\"execs\":%d", id, r,
+                  fut[i]->isFinished() ? "true" : "false", fut[i]->isAborted() ? "true" : "false", (int)execCount[id]);
+      delete fut[i];
+      sched_event("\"op\":\"deleted\",\"f\":%d", id);
+    }
+    usleep(3000 * 1000);
+    for(int k = 0; k < 5; ++k)
+    {
+      int id = 40 + k;
+      Future<int>* f = new Future<int>;
+      sched_event("\"op\":\"start\",\"f\":%d,\"c\":%d", id, c);
+      f->start(&work, id);
+      sched_event("\"op\":\"started\",\"f\":%d,\"c\":%d", id, c);
+      sched_event("\"op\":\"join\",\"f\":%d", id);
+      int r = *f;
+      sched_event("\"op\":\"joinret\",\"f\":%d,\"r\":%d,\"fin\":%s,\"ab\":%s,\"execs\":%d", id, r,
+                  f->isFinished() ? "true" : "false", f->isAborted() ? "true" : "false", (int)execCount[id]);
+      delete f;
+      sched_event("\"op\":\"deleted\",\"f\":%d", id);
+      if(k == 1) usleep(3000 * 1000);
+    }
+    return;
+  }
   for(int i = 0; i < nfuts; ++i)
   {
     int id = (mode == 2 && i == 0) ? c * 8 + 4 : c * 8 + i;
